@@ -14,20 +14,24 @@ EXTENDS Naturals, Sequences, FiniteSets, TLC
 CONSTANTS KeyedByAttrs, MaxQ
 
 Objs    == 1..3
+\* @type: Seq(<<Int, Int>>);
 Content == << <<1, 1>>, <<1, 2>>, <<2, 1>> >>   \* objects 1 and 2 agree on x only
 Engines == {"el", "elch"}
-Proj(e, o) == IF e = "el" THEN <<Content[o][1]>> ELSE Content[o]
+\* the selected layers of object o; an unselected layer reads 0 (pairs throughout, so the module also type-checks for the symbolic checker)
+\* @type: (Str, Int) => <<Int, Int>>;
+Proj(e, o) == IF e = "el" THEN <<Content[o][1], 0>> ELSE Content[o]
 
 VARIABLES cache,   \* key -> histogram
           last,    \* [e, a, b, ans]
           n
 vars == <<cache, last, n>>
 
-Key(e, o) == IF KeyedByAttrs THEN <<o, e>> ELSE <<o>>
+\* @type: (Str, Int) => <<Int, Str>>;
+Key(e, o) == <<o, IF KeyedByAttrs THEN e ELSE "any">>
 Lookup(c, e, o) == IF Key(e, o) \in DOMAIN c THEN c[Key(e, o)] ELSE Proj(e, o)
 Store(c, e, o)  == IF Key(e, o) \in DOMAIN c THEN c ELSE [k \in DOMAIN c \cup {Key(e, o)} |-> IF k = Key(e, o) THEN Proj(e, o) ELSE c[k]]
 
-Init == cache = <<>> /\ last = [e |-> "el", a |-> 1, b |-> 1, ans |-> TRUE] /\ n = 0
+Init == cache = [k \in {} |-> <<0, 0>>] /\ last = [e |-> "el", a |-> 1, b |-> 1, ans |-> TRUE] /\ n = 0
 
 Query(e, a, b) ==
    /\ n < MaxQ
